@@ -155,6 +155,8 @@ def check(case, rec):
     rec.label('raw=' + t, 'level=' + case['level'], 'status=%s' % case['status'])
     if graph is not None:
         rec.label(*('scale=' + s['type'] for s in graph))
+        if any(s.get('prop_order') == 'rev' for s in graph):
+            rec.label('scale_properties_listed_in_reverse')
         rec.nontrivial(_depth(graph) >= 2 or any(s['type'] in ('Add', 'Subtract') for s in graph) or case['level'] != 'channel')
         want, mag = SC.eval_graph(graph, raw)
     else:
